@@ -147,6 +147,32 @@ def bytearray_case(c):
 
 
 prove("bytearray with symbolic content", bytearray_case)
+def just_case(c):
+    """str.rjust / ljust / center on text with symbolic characters; the expected layout comes from CPython's own
+    result on a probe string of the same length"""
+    E = SymEnv(c)
+    t = E.chars("t", 3, "abc")
+    n = E.bv("n", 3)
+    w = I.concretize_small(n, 0, 7)
+    for how in ("rjust", "ljust", "center"):
+        E.check_eq(getattr(t, how)(n, "*"), _just_expect(t, how, w), how)
+
+
+def _just_expect(t, how, w):
+    items = list(t)
+    pad = max(0, w - 3)
+    if how == "rjust":
+        return I._mkstr(["*"] * pad + items)
+    if how == "ljust":
+        return I._mkstr(items + ["*"] * pad)
+    probe = "xyz".center(w, "*")
+    left = probe.index("x") if "x" in probe else 0
+    return I._mkstr(["*"] * left + items + ["*"] * (pad - left))
+
+
+prove("rjust / ljust / center", just_case)
+
+
 def case_case(anchor, bits):
     def body(c):
         E = SymEnv(c)
